@@ -25,6 +25,8 @@ type Lexer struct {
 	tokenPool    *token.Pool
 	positionPool *position.Pool
 	newLines     NewLines
+
+	verif verifState
 }
 
 func NewLexer(data []byte, config conf.Config) *Lexer {
@@ -47,6 +49,7 @@ func NewLexer(data []byte, config conf.Config) *Lexer {
 }
 
 func (lex *Lexer) setTokenPosition(token *token.Token) {
+	lex.verifStep(verifStepToken)
 	pos := lex.positionPool.Get()
 
 	pos.StartLine = lex.newLines.GetLine(lex.ts)
@@ -197,6 +200,7 @@ func (lex *Lexer) isNotNewLine() bool {
 }
 
 func (lex *Lexer) call(state int, fnext int) {
+	lex.verifStep(verifStepCall)
 	lex.growCallStack()
 
 	lex.stack[lex.top] = state
@@ -207,6 +211,7 @@ func (lex *Lexer) call(state int, fnext int) {
 }
 
 func (lex *Lexer) ret(n int) {
+	lex.verifStep(verifStepRet)
 	lex.top = lex.top - n
 	if lex.top < 0 {
 		lex.top = 0
@@ -223,6 +228,7 @@ func (lex *Lexer) ungetStr(s string) {
 }
 
 func (lex *Lexer) ungetCnt(n int) {
+	lex.verifStep(verifStepUnget)
 	lex.p = lex.p - n
 	lex.te = lex.te - n
 }
